@@ -80,6 +80,9 @@ pub enum Op {
     TruncateFront(usize),
     Clear,
     Extend(usize),
+    /// extend with an iterator whose size_hint is inexact: 1 = (0, None), 2 = (0, Some(too large)),
+    /// 3 = (half, None)
+    ExtendHinted(usize, u8),
     ExtendFromSlice(usize),
     Fill,
     FillWith,
@@ -128,6 +131,7 @@ impl Op {
             Op::TruncateFront(_) => "truncate_front",
             Op::Clear => "clear",
             Op::Extend(_) => "extend",
+            Op::ExtendHinted(..) => "extend_inexact_hint",
             Op::ExtendFromSlice(_) => "extend_from_slice",
             Op::Fill => "fill",
             Op::FillWith => "fill_with",
@@ -179,7 +183,7 @@ impl Op {
     pub fn n_args(&self) -> usize {
         match self {
             Op::PushBack | Op::PushFront | Op::TryPushBack | Op::TryPushFront => 1,
-            Op::Extend(k) | Op::ExtendFromSlice(k) => *k,
+            Op::Extend(k) | Op::ExtendFromSlice(k) | Op::ExtendHinted(k, _) => *k,
             Op::Fill | Op::FillSpare => 1,
             Op::Write(_, _, WMode::Replace) => 1,
             _ => 0,
